@@ -64,6 +64,10 @@ def run(ctx):
         ctx.guard(nonempty, ctx, cfg, fs)
         ctx.guard(dead_arm, ctx, cfg, fs)
         ctx.guard(invariant, ctx, cfg, fs)
+        if any(p.startswith('complete_shell::render_') for p in fs.bodies):
+            ctx.guard(guarded_const_index, ctx, cfg, fs)
+        import docwalk
+        ctx.guard(docwalk.payload_writers, ctx, cfg, fs, 'I.invariant')
         ctx.guard(loops, ctx, cfg, fs)
         ctx.guard(recursion, ctx, cfg, fs)
         ctx.guard(group_flag, ctx, cfg, fs)
@@ -202,6 +206,89 @@ def census(ctx, cfg, fs):
 
 BYTE_SOURCES = [r'CharIndices.*next$', r'str::<impl str>::len$', r'String::len$', r'len_utf8$', r'str::<impl str>::(find|rfind)$', r'OsStr::len$',
                 r'Iterator>?::position$']
+
+def nonempty_edges(b, param_local, need=1):
+    """edges (block, target) whose being taken implies that the parameter slice has at least `need` elements"""
+    pname = b.name_of(param_local)
+    def of_param(op, bb, ix):
+        for r in provenance(b, op, bb, ix, through=None):
+            if r.kind == 'call' and r.call.is_(r'core::slice::<impl \[T\]>::len$', r'Vec::<.*>::len$'):
+                if any(q.kind == 'param' and q.what == pname for q in provenance(b, r.call.args[0], r.call.bb, 'term')):
+                    return True
+            if r.kind == 'un' and r.extra.get('op') == 'PtrMetadata' and any(q.kind == 'param' and q.what == pname for q in provenance(b, r.extra['a'], r.site[0], r.site[1])):
+                return True
+        return False
+    out = []
+    for sw in switches(b):
+        if sw.kind == 'bool':
+            for r in sw.roots:
+                if r.kind == 'call' and not r.path and r.call.is_(r'core::slice::<impl \[T\]>::is_empty$', r'Vec::<.*>::is_empty$') and need <= 1 and \
+                        any(q.kind == 'param' and q.what == pname for q in provenance(b, r.call.args[0], r.call.bb, 'term')):
+                    out.append((sw.b, sw.target(False)))
+                elif r.kind == 'bin' and r.extra['op'] in ('Eq', 'Ne', 'Gt', 'Ge', 'Lt', 'Le'):
+                    for (x, y, flip) in ((r.extra['a'], r.extra['b'], False), (r.extra['b'], r.extra['a'], True)):
+                        k_ = (op_const(y) or {}).get('v')
+                        if not isinstance(k_, int) or isinstance(k_, bool) or not of_param(x, r.site[0], r.site[1]):
+                            continue
+                        op_ = r.extra['op']
+                        if flip:
+                            op_ = {'Gt': 'Lt', 'Lt': 'Gt', 'Ge': 'Le', 'Le': 'Ge'}.get(op_, op_)
+                        # len OP k
+                        if op_ == 'Eq' and k_ >= need: out.append((sw.b, sw.target(True)))
+                        elif op_ == 'Ne' and k_ == 0 and need <= 1: out.append((sw.b, sw.target(True)))
+                        elif op_ == 'Eq' and k_ == 0 and need <= 1: out.append((sw.b, sw.target(False)))
+                        elif op_ == 'Gt' and k_ + 1 >= need: out.append((sw.b, sw.target(True)))
+                        elif op_ == 'Ge' and k_ >= need: out.append((sw.b, sw.target(True)))
+                        elif op_ == 'Lt' and k_ >= need: out.append((sw.b, sw.target(False)))
+                        elif op_ == 'Le' and k_ + 1 >= need: out.append((sw.b, sw.target(False)))
+        elif sw.kind == 'int' and of_param(b.term(sw.b)['op'], sw.b, 'term'):
+            # slice pattern `[a]`, `[a, b]`: the value switched on is the length
+            for v, t in sw.edges.items():
+                if isinstance(v, int) and not isinstance(v, bool) and v >= need:
+                    out.append((sw.b, t))
+    return out
+
+def guarded_const_index(ctx, cfg, fs):
+    """`items[0]` in a completion renderer is safe only under a test of the size of `items`: the renderers receive an empty `items`
+    whenever the only thing to offer is a shell action (`ops`), so "the no-candidates case was handled above" is not an argument
+    unless that early return tested `items` alone.  Every bounds check with a constant index into a parameter slice is control
+    dependent on a size test of that same slice."""
+    import c15
+    n = 0
+    for b in sorted(fs.bodies.values(), key=lambda x: x.path):
+        if b.kind == 'closure' or not re.match(r'^complete_shell::render_\w+$', b.path):
+            continue
+        ctx.look(b)
+        params = {b.name_of(i): i for i in range(1, b.arg_count + 1)}
+        bad = []
+        for i, blk in enumerate(b.blocks):
+            t = blk['term']
+            if t['k'] != 'assert' or t.get('msg') != 'BoundsCheck' or len(t.get('ops', [])) != 2:
+                continue
+            lenop, idxop = t['ops'][0], t['ops'][1]
+            idx = provenance(b, idxop, i, 'term', through=None)
+            if not (idx and all(r.kind == 'const' for r in idx)):
+                continue
+            owners = set()
+            for r in provenance(b, lenop, i, 'term', through=None):
+                if r.kind == 'param':
+                    owners.add(r.what)
+                elif r.kind == 'un' and r.extra.get('op') == 'PtrMetadata':
+                    owners |= {q.what for q in provenance(b, r.extra['a'], r.site[0], r.site[1]) if q.kind == 'param'}
+                elif r.kind == 'call' and r.call.is_(r'::len$'):
+                    owners |= {q.what for q in provenance(b, r.call.args[0], r.call.bb, 'term') if q.kind == 'param'}
+            for o in owners:
+                if o not in params:
+                    continue
+                n += 1
+                # edges that imply "the slice has at least max(index)+1 elements" (here: is non-empty / has a known length >= 1)
+                need = max([r.what for r in idx if isinstance(r.what, int)] or [0]) + 1
+                edges = nonempty_edges(b, params[o], need)
+                if i in reachable_edges(b, 0, removed_edges=edges):
+                    bad.append('%s[%s] at %s' % (o, '|'.join(str(r.what) for r in idx), b.where(i)))
+        ctx.ob('I.invariant', '%s:constant-index-under-size-test' % short(b.path), not bad, '%s indexes its parameter slices with a constant only under a test of that slice\'s size: %s' % (short(b.path), bad or 'ok'), where=b.where(), cfg=cfg)
+    if n == 0 and any(re.match(r'^complete_shell::render_\w+$', p) for p in fs.bodies):
+        raise Broken('guarded_const_index: no constant index into a parameter slice found in the renderers')
 
 def str_index(ctx, cfg, fs):
     for s in panics.census(fs):
